@@ -386,6 +386,7 @@ def run(ctx):
     if si == 0:
         bus_forwarding(ctx, rng, 40 if quick else 400)
         hostile_names_through_bus(ctx)
+        first_use_poisoning(ctx, rng)
         scaling_probe(ctx)
 
     # F. memory, sampled
@@ -423,6 +424,51 @@ class cpu_guard:
         signal.setitimer(signal.ITIMER_VIRTUAL, 0)
         signal.signal(signal.SIGVTALRM, self._old)
         return et is CpuBudgetExceeded
+
+
+def first_use_poisoning(ctx, rng):
+    """The FIRST value of a container type that this process ever decodes may be a malformed one (a hostile peer gets
+    there first).  Whatever the decoder remembers per type must not be left half-built by that failure: the next,
+    well-formed value of the same type - from another peer - decodes to what it encodes."""
+    from harness import gen as GEN
+    codes = 'ybnqiuxtdsog'
+    for k in range(40):
+        members = ''.join(rng.choice(codes) for _ in range(rng.randint(2, 4)))
+        if not any(c in members for c in 'sog'):
+            members = members[:-1] + 's'
+        for sig in ('(%s)' % members, 'a(%s)' % members, 'a{%s(%s)}' % (rng.choice('sqy'), members), 'a{s%s}' % members[0] + 'v'):
+            little = rng.random() < 0.5
+            g = GEN.Gen(rng, max_depth=2, allow_h=False)
+            tv = g.values(sig)
+            # containers must not be empty, or nothing of the member list is ever touched
+            if sig.startswith('a') and not tv[0]:
+                continue
+            body = R.encode(sig, tv, 0, little)
+            want = R.plain_list(sig, tv)
+            hostile = []
+            for cut in sorted(set(rng.randint(1, max(1, len(body) - 1)) for _ in range(4))):
+                hostile.append(body[:cut])
+            for pos in [i for i in range(len(body)) if body[i:i + 1].isalpha()][:3]:
+                hostile.append(body[:pos] + b'\xff' + body[pos + 1:])          # not UTF-8 any more
+            for h in hostile:
+                try:
+                    M.unmarshal(sig, h, 0, little, [])
+                except Exception:
+                    pass
+                ctx.count('first_use_hostile_decodes')
+            ctx.count('evaluations')
+            try:
+                n, vals = M.unmarshal(sig, body, 0, little, [])
+                ok = n == len(body) and R.plain_eq(vals, want)
+                err = None if ok else 'decoded %r (%d of %d bytes), encodes %r' % (vals, n, len(body), want)
+            except Exception as e:
+                err = 'raised %r' % e
+            if err:
+                ctx.report('decoder-state-poisoned', 'after malformed values of type %r were the first of that type to be decoded, '
+                           'a well-formed one no longer decodes: %s' % (sig, err),
+                           {'sig': sig, 'little': little, 'bytes': body, 'hostile_first': hostile[:3]}, {'kind': 'first-use'})
+                return
+            ctx.count('first_use_types_ok')
 
 
 def scaling_probe(ctx):
